@@ -357,6 +357,10 @@ func (e *FnEnc) encodeBlock(b *ssa.BasicBlock) {
 					if _, ok := e.heapSort[k]; !ok {
 						continue // array first used inside the loop: its pre-state name is its current value
 					}
+					if k == "$alloc" {
+						e.growAlloc() // the allocation set only grows
+						continue
+					}
 					e.havocHeap(k)
 				}
 			}
